@@ -43,6 +43,11 @@ SITE_FIELD = {
 }
 
 MUTATION_DRILLS = [
+    {"mutation": "DictCompiler::Compile: a missing / unloadable / mismatching reverse db no longer sets rebuild_table",
+     "ran": "VERIF_REPO=<worktree> bin/check C13 quick",
+     "fired": "exit 1 with failing kill points: reverse-window-not-rebuilt and stale-after-redeploy:reverse.bin at "
+              "DictCompiler::BuildTable:table-saved, DictCompiler::BuildReverseDb:reverse-removed, MappedFile::Resize:resized "
+              "(the table's Save) and every ReverseDb::Build:* point (scenario small)"},
     {"mutation": "Table::Build: write the format tag right after the metadata is allocated (before the data)",
      "ran": "VERIF_REPO=<worktree> bin/check C13 quick",
      "fired": "translator: prog_KTable has STag before the field stores -> C13_builders_translated_ok fails; sweep (small): "
